@@ -6,6 +6,7 @@ import (
 	goio "io"
 	"math"
 	"runtime"
+	"sort"
 
 	"github.com/spf13/cobra"
 
@@ -146,6 +147,9 @@ For each trees in the compared tree file, it will print tab separated values wit
 				fmt.Printf("%d\t%v\n", st.Id, st.Sametree)
 			}
 		} else if comparetreerf {
+			// Distances are written in the order of the compared trees,
+			// whatever the order in which the threads deliver them
+			rfs := make(map[int]int)
 			for st := range stats {
 				if st.Err != nil {
 					/* We empty the channel if needed*/
@@ -154,7 +158,15 @@ For each trees in the compared tree file, it will print tab separated values wit
 					io.LogError(st.Err)
 					return st.Err
 				}
-				fmt.Printf("%d\n", st.Tree1+st.Tree2)
+				rfs[st.Id] = st.Tree1 + st.Tree2
+			}
+			ids := make([]int, 0, len(rfs))
+			for id := range rfs {
+				ids = append(ids, id)
+			}
+			sort.Ints(ids)
+			for _, id := range ids {
+				fmt.Printf("%d\n", rfs[id])
 			}
 		} else {
 			fmt.Printf("tree\treference\tcommon\tcompared\n")
